@@ -8,8 +8,11 @@
 (* Two levels of the reference are defined and tied together by FileAdaptors.tla:            *)
 (*   byte level  - a file is a sequence of bytes, a byte is B(sym, pos) = "written by writer  *)
 (*                 sym, intended for file position pos"; used by TLC on the small scope;     *)
-(*   run level   - a file is a sequence of runs <<sym, len>>; used by Trace_FileAdaptors to   *)
-(*                 judge recorded executions of the real code (any file size).               *)
+(*   run level   - a file is a sequence of runs <<<<sym, delta>>, len>>; used by              *)
+(*                 Trace_FileAdaptors to judge recorded executions of the real code (any     *)
+(*                 file size).                                                               *)
+(* Not modelled: failures of the underlay or of the allocator (the statement is about a      *)
+(* working underlay), requests that start at or after end-of-file.                           *)
 EXTENDS RangeSplitOps, Integers
 
 (* ------------------------------------------------------------------ bytes *)
